@@ -17,6 +17,8 @@ import Vita.C19.LemmasStr
 import Vita.C19.LemmasStrip
 import Vita.C19.LemmasNum
 import Vita.C19.LemmasGenome
+import Vita.C19.LemmasStream
+import Vita.C19.GenExport
 namespace Vita.C19
 
 set_option maxRecDepth 100000 in
@@ -229,6 +231,67 @@ theorem export_genome_denotes (fns : List FnSym) (tms : List TmSym) (f : Fmt)
 theorem team_export_lines (ms : List (List Ch)) (h : ∀ m ∈ ms, 10 ∉ m) :
     splitLines (teamG ms) = ms :=
   splitLines_teamG ms h
+
+/-! ### format selection: manipulator -> iword slot -> operator<< -> language(format) -/
+
+/-- the four language manipulators and the column of the template table each must select -/
+def langManips : List (String × Fmt) :=
+  [("c_language", .c), ("cpp_language", .cpp), ("mql_language", .mql), ("python_language", .py)]
+
+/-- `language_selection_persists` (over the EXTRACTED enumerators, manipulator bodies and switch):
+    for every history of a stream – any operations `pre`, then `s << out::X_language`, then any
+    operations `mid` that neither replace the stream nor write the format slot (prints, long/short
+    form, …) – the next `s << individual` takes the default branch of the switch and calls
+    `language(s, symbol::format(k), ind)` with `k` = the column of format X. -/
+theorem language_selection_persists (pre mid : List Op) (s : StreamSt) (name : String) (f : Fmt) (arg : Nat)
+    (hm : (name, f) ∈ langManips)
+    (hq : ∀ o ∈ mid, quiet Gen.manipulators Gen.formatSlot o = true) :
+    shown Gen.dispatchCases Gen.dispatchBase
+      ((stAfter Gen.manipulators s (pre ++ .manip name arg :: mid)).get Gen.formatSlot) = .lang f.idx := by
+  rw [stAfter_append, stAfter_cons, quiet_keeps _ _ mid _ hq]
+  generalize stAfter Gen.manipulators s pre = s'
+  simp only [langManips, List.mem_cons, Prod.mk.injEq, List.not_mem_nil, or_false] at hm
+  rcases hm with ⟨rfl, rfl⟩ | ⟨rfl, rfl⟩ | ⟨rfl, rfl⟩ | ⟨rfl, rfl⟩
+  all_goals
+    simp only [stStep, applyManip, Gen.manipulators, List.find?, Gen.formatSlot, Option.getD]
+    first
+      | (rw [StreamSt.get_set_same]; decide)
+      | (simp only [String.reduceBEq, StreamSt.get_set_same]; decide)
+
+/-- `print_format_selects`: `out::print_format(language_f + k)` stores its argument in the format
+    slot, and a flag `language_f + k` reaches `language(s, symbol::format(k), ind)` – no case
+    label of the switch is ≥ language_f. -/
+theorem print_format_selects (pre mid : List Op) (s : StreamSt) (k : Nat)
+    (hq : ∀ o ∈ mid, quiet Gen.manipulators Gen.formatSlot o = true) :
+    shown Gen.dispatchCases Gen.dispatchBase
+      ((stAfter Gen.manipulators s (pre ++ .manip "print_format" (Gen.dispatchBase + k) :: mid)).get
+        Gen.formatSlot) = .lang k := by
+  rw [stAfter_append, stAfter_cons, quiet_keeps _ _ mid _ hq]
+  generalize stAfter Gen.manipulators s pre = s'
+  have h1 : (stStep Gen.manipulators s' (.manip "print_format" (Gen.dispatchBase + k))).get Gen.formatSlot =
+      Gen.dispatchBase + k := by
+    simp only [stStep, applyManip, Gen.manipulators, List.find?, Gen.formatSlot, Option.getD]
+    first
+      | exact StreamSt.get_set_same _ _ _
+      | (simp only [String.reduceBEq]; exact StreamSt.get_set_same _ _ _)
+  rw [h1, shown_default _ _ _ (by decide) (by omega)]
+  congr 1; omega
+
+/-- a stream nobody configured prints the `list` format, never a language -/
+theorem fresh_stream_is_not_language :
+    shown Gen.dispatchCases Gen.dispatchBase (StreamSt.fresh.get Gen.formatSlot) = .fn "list" := by decide
+
+/-- `team_language_format`: in every language format (flag ≥ language_f) a team is printed as
+    every member's text followed by a newline (`teamG`, whose lines are the members' texts by
+    `team_export_lines`). -/
+theorem team_language_format (pf : Nat) (h : Gen.dispatchBase ≤ pf) (ms : List (List Ch)) :
+    teamExec Gen.teamBody pf ms = teamG ms := by
+  have hb : elseBody Gen.teamBody = [.member, .put 10] := by decide
+  simp only [teamExec, teamG]
+  congr 1
+  funext m
+  rw [exec_elseBody Gen.dispatchBase pf m h Gen.teamBody (by decide), hb]
+  simp [execPrim]
 
 /-! ### the hypotheses are satisfiable: a concrete non-trivial program -/
 
